@@ -76,7 +76,8 @@ def t_pitch_ent(v: VMF) -> None:
 def t_relay(v: VMF) -> None:
     e = v.create_ent('logic_relay', origin='0 0 0', targetname='rl', parentname='door')
     e.add_out(Output('OnTrigger', 'tgt', 'Kill'), Output('OnTrigger', '@global', 'Trigger', 'p', 1.5),
-              Output('OnUser1', '!activator', 'Use'), Output('OnUser2', 'door', 'Open', comma_sep=True))
+              Output('OnUser1', '!activator', 'Use'), Output('OnUser2', 'door', 'Open', comma_sep=True),
+              Output('OnUser3', 'tgt', 'Fire', times=3), Output('OnUser4', 'tgt', 'Fire', times=0), Output('OnUser4', 'tgt', 'Fire', only_once=True))
 
 
 def t_vars(v: VMF) -> None:
@@ -90,6 +91,9 @@ def t_nested(v: VMF) -> None:
     e.fixup['$count'] = '5'
     e.fixup['$global'] = '@glob'
     e.fixup['$passed'] = '$a'
+    e.fixup['$offset'] = '-64'
+    e.fixup['$scale'] = '.5'
+    e.fixup['$bang'] = '!self'
 
 
 def t_hidden(v: VMF) -> None:
